@@ -201,10 +201,13 @@ int main(void) {
       uint64_t a=strtoull(w[1],0,16), n=strtoull(w[2],0,16);
       if (skip_case) printf("skip\n");
       else if (n==0 || !is_mapped(a,n)) printf("err\n");
-      else { // temporarily make readable (a PROT_NONE page would fault in this process itself)
-        for (int i=0;i<nmaps;i++) if (!(maps[i].prot & PROT_READ)) mprotect((void*)maps[i].start, maps[i].len, maps[i].prot|PROT_READ);
-        printf("ok "); for (uint64_t k=0;k<n;k++) printf("%02x", ((uint8_t*)a)[k]); printf("\n");
-        for (int i=0;i<nmaps;i++) if (!(maps[i].prot & PROT_READ)) mprotect((void*)maps[i].start, maps[i].len, maps[i].prot); }
+      else {
+        // the observation is the emulator's API read, which needs read permission: a page the guest may not read answers
+        // "err" here too (reading it would also fault in this process itself)
+        int unreadable = 0;
+        for (int i=0;i<nmaps;i++) if (!(maps[i].prot & PROT_READ) && a < maps[i].start + maps[i].len && maps[i].start < a + n) unreadable = 1;
+        if (unreadable) printf("err\n");
+        else { printf("ok "); for (uint64_t k=0;k<n;k++) printf("%02x", ((uint8_t*)a)[k]); printf("\n"); } }
     } else printf("-\n");
     fflush(stdout);
   }
